@@ -50,6 +50,7 @@ type srvResp struct {
 	Toks   []srvTok          `json:"toks"`
 	Fmt    string            `json:"fmt_hex"`
 	Vars   []string          `json:"vars"`
+	VarsH  []string          `json:"vars_hex"` // byte-exact Vars (hex)
 	BinOps map[string][]any  `json:"binops"`
 	KeyWds map[string]string `json:"keywords"`
 	Died   bool              `json:"-"` // the server process died on this request (fatal error / hang)
@@ -144,6 +145,14 @@ func (s *FcSrv) Scan(src string, pos int) srvResp {
 
 func (s *FcSrv) SInterP(src string) srvResp {
 	r := s.call(map[string]any{"op": "sinterp", "buf_hex": hex.EncodeToString([]byte(src))})
+	d, _ := hex.DecodeString(r.Fmt)
+	r.Fmt = string(d)
+	return r
+}
+
+// Reinterp: reinterpretEscape(src); the result is in Fmt.
+func (s *FcSrv) Reinterp(src string) srvResp {
+	r := s.call(map[string]any{"op": "reinterp", "buf_hex": hex.EncodeToString([]byte(src))})
 	d, _ := hex.DecodeString(r.Fmt)
 	r.Fmt = string(d)
 	return r
